@@ -22,11 +22,11 @@ FEAT=""; [ -n "$FEATURES" ] && FEAT="--features $FEATURES"
 echo "== demo WITH the change (expected to fail)"
 cargo test -p "$PKG" $FEAT --test "$TEST" --offline 2>&1 | grep -E "^test result|^test .* (ok|FAILED)|error\[" | head -12
 WITH=$(cargo test -p "$PKG" $FEAT --test "$TEST" --offline >/dev/null 2>&1; echo $?)
-git stash push -q -- $(git diff --name-only)
+git apply -R patch.diff   # (not git stash: the stash is shared by all worktrees of /repo)
 echo "== demo WITHOUT the change (expected to pass)"
 cargo test -p "$PKG" $FEAT --test "$TEST" --offline 2>&1 | grep -E "^test result|error\[" | head -5
 WITHOUT=$(cargo test -p "$PKG" $FEAT --test "$TEST" --offline >/dev/null 2>&1; echo $?)
-git stash pop -q
+git apply patch.diff
 rm -f "$CRATE/tests/$TEST.rs"
 echo "== demo exit codes: with=$WITH without=$WITHOUT"
 unset CARGO_TARGET_DIR
